@@ -55,6 +55,14 @@ CHECKS["C11"] = ("E1", "deterministic simulation: seeded demand shapes in virtua
   "exploration",
   "Warm-up: rate never above the threshold in any aligned window, cold start bounded by ceil(T/coldFactor)+1 after a long idle, full threshold reached after a long saturation, steady single-token demand admitted, effective threshold finite, >=0, <=T. Memory-adaptive: end points exact, monotone in between, fresh-window capacity == floor(effective). Sampling.",
   "Trusted: envelope constants chosen from the property text (generous slack); overlay-only accessor for the effective threshold. One open finding (no cool-down when threshold < cold factor) tolerated.", "DESIGN.md §3 C11")
+CHECKS["C13"] = ("E1", "deterministic simulation (thin): seeded histories of LoadRules / LoadRulesOfResource / Clear* / identical reloads over the six rule modules with valid, field-wise invalid and nil rules, checked call by call against a rule-set reference model through getters, overlay read accessors of the enforced controllers and probe traffic under a virtual clock; fault injection = invalid and nil rules; ddmin replay",
+  "exploration",
+  "After every call: no panic, getters == model (per resource, in order), enforced controllers / breakers / outlier rule == model, probes blocked by exactly the first module holding an enforced blocking rule (invalid variants are built to block if wrongly enforced), identical reload reports unchanged, a reload changing one behaviour-neutral field still replaces the rule. Sampling of histories.",
+  "Trusted: rule-set model; rules compared by content class (an unchanged rule may keep the object of an earlier load). Domain restrictions stated in evidence (per-resource loads carry only that resource; one outlier rule per resource).", "DESIGN.md §3 C13")
+CHECKS["C14"] = ("E1", "deterministic simulation, metamorphic: one seeded traffic history is executed twice under the virtual clock after a full reset of process-global state, once with reloads inserted that keep rule R field-for-field identical (fresh object) while adding / removing / modifying / reordering the other rules, once without; decision traces (admit / block type / requested wait) must be equal; second oracle: a modified private-window rule keeps its counts",
+  "exploration",
+  "Covers flow throttling (queue position), warm-up (tokens), private-window reject rule, circuit breaker (state, deadline), hotspot QPS and concurrency counters, whole-set and per-resource reload paths. Sampling of histories, reload positions and edits.",
+  "Trusted: full reset between the two runs (harness.Reset + overlay reset of the inbound node); the other rules never block so that R alone governs the trace.", "DESIGN.md §3 C14")
 NOT_YET = {}
 props = [json.loads(l) for l in open(os.path.join(HERE, 'properties.jsonl'))]
 checks, na = [], []
